@@ -562,8 +562,8 @@ def _run_cfg(ctx, cfg):
     # kill points in model coordinates: ALL single kills (every op boundary, every byte position) + double/triple kills;
     # one model call for both protocols
     rng = __import__("random").Random(ctx.rng.randrange(10 ** 9))
-    multi = [[rng.randrange(10 ** 6), rng.randrange(0, 16)] for _ in range(ctx.n(5, 24))]
-    multi += [[rng.randrange(10 ** 6), rng.randrange(0, 16), rng.randrange(0, 16)] for _ in range(ctx.n(1, 6))]
+    multi = [[rng.randrange(10 ** 6), rng.randrange(0, 16)] for _ in range(ctx.n(5, 12))]
+    multi += [[rng.randrange(10 ** 6), rng.randrange(0, 16), rng.randrange(0, 16)] for _ in range(ctx.n(1, 4))]
     def sweep(which):
         """model sweep for the protocols in `which` (the other one: op sequence only) -> mo, sims, scen, scenarios"""
         req = [dict(op="sweep", proto=p, n=n, r0=r0, multi=multi) if p in which else dict(op="ops", proto=p, n=n, resume=r0)
@@ -679,7 +679,7 @@ def _run_cfg(ctx, cfg):
     cand = [sid for sid, ks in enumerate(scen[proto]) if str(sid) in allsc and sid not in pick]
     ctx.rng.shuffle(cand)
     mid = [sid for sid in cand if any(k.get("when") == "partial" for k in allsc[str(sid)]["kills"])]
-    pick += mid[:ctx.n(1, 3)] + [sid for sid in cand if sid not in mid][:ctx.n(0, 3)]
+    pick += mid[:ctx.n(1, 2)] + [sid for sid in cand if sid not in mid][:ctx.n(0, 2)]
     try:
         reals = _pool().map(lambda sid: (sid, _scenario_real(f"{cfg['seed']}_{sid}", cfg, allsc[str(sid)]["kills"])), pick)
     except Infra as e:
